@@ -133,13 +133,13 @@ def run(ctx):
     else:
         hists = [witness_history()] + [build_history(ctx.rng, ctx.tier) for _ in range(n)]
     inputs = [{"cache": 10000, "events": go_events(e, ctx.seed)} for e in hists]
-    ok, outs, lg = vlib.run_driver_parallel(ctx.bins["engine"], "history", inputs, nshards=12)
+    ok, outs, lg = vlib.run_driver_parallel(ctx.bins["engine"], "history", inputs, nshards=12, resilient=True)
     if not ok or len(outs) != len(hists):
         raise RuntimeError("history driver failed: " + lg[-3000:])
     cases = []
     owner = []
     for hi, (e, o) in enumerate(zip(hists, outs)):
-        tc = torn_cases(e, o["events"])
+        tc = torn_cases(e, o.get("events", []))
         cases.extend(tc)
         owner.extend([hi] * len(tc))
     terms = ["(%s, %s)" % (hist.cq_list(cq_ev(e) for e in ev), hist.cq_list(ob)) for ev, ob, _ in cases]
